@@ -161,6 +161,16 @@ def F12():
     return a.last == ["Aa\\"], repr(a)
 
 
+def F13():
+    """C20: append_middleware given as a generator is ignored"""
+    bp = _bp()
+    from bibtexparser.middlewares import MonthIntMiddleware
+    lib = bp.parse_string("@article{k, month = jan}", append_middleware=(m for m in [MonthIntMiddleware()]))
+    a = lib.entries[0]["month"]
+    out = bp.write_string(lib, prepend_middleware=iter([MonthIntMiddleware()]))
+    return a == 1, "month=%r" % (a,)
+
+
 def K1():
     """C08: add(dup, fail_on_duplicate_key=True) raises ValueError after adding the wrapper"""
     from bibtexparser.model import Entry
@@ -208,7 +218,7 @@ def K3():
     return ps == ps2, "%r -> %r -> %d persons" % (v, merged, len(ps2))
 
 
-ALL = [F1, F2, F3, F4, F5, F6, F7, F8, F9, F10, F11, F12, K1, K2, K3, K4]
+ALL = [F1, F2, F3, F4, F5, F6, F7, F8, F9, F10, F11, F12, F13, K1, K2, K3, K4]
 
 if __name__ == "__main__":
     import bibtexparser
